@@ -20,9 +20,9 @@ Proof.
   { intros a. induction a as [a IHa] using lt_wf_ind. intros b. induction b as [b IHb] using lt_wf_ind.
     intros c. induction c as [c IHc] using lt_wf_ind. intros s Fa Gb Hc. constructor. intros s' Rs.
     apply H in Rs. simpl in Rs. destruct Rs as [L|[E [L|[E2 L]]]].
-    - eapply (IHa (f s')); [lia|reflexivity..].
-    - eapply (IHb (g s')); [lia|lia|reflexivity].
-    - eapply (IHc (h s')); [lia|lia|lia|reflexivity]. }
+    - eapply (IHa (f s')); try reflexivity; lia.
+    - eapply (IHb (g s')); try reflexivity; lia.
+    - eapply (IHc (h s')); try reflexivity; lia. }
   intros s. eapply X; reflexivity.
 Qed.
 
@@ -39,10 +39,10 @@ Proof.
     intros a. induction a as [a IHa] using lt_wf_ind. intros b. induction b as [b IHb] using lt_wf_ind.
     intros c. induction c as [c IHc] using lt_wf_ind. intros s Ez Fa Gb Hc. constructor. intros s' Rs.
     apply H in Rs. simpl in Rs. destruct Rs as [L|[E0 [L|[E [L|[E2 L]]]]]].
-    - eapply (IHz (e s')); [lia|reflexivity..].
-    - eapply (IHa (f s')); [lia|lia|reflexivity..].
-    - eapply (IHb (g s')); [lia|lia|lia|reflexivity].
-    - eapply (IHc (h s')); [lia|lia|lia|lia|reflexivity]. }
+    - eapply (IHz (e s')); try reflexivity; lia.
+    - eapply (IHa (f s')); try reflexivity; lia.
+    - eapply (IHb (g s')); try reflexivity; lia.
+    - eapply (IHc (h s')); try reflexivity; lia. }
   intros s. eapply X; reflexivity.
 Qed.
 
@@ -129,16 +129,6 @@ Lemma list_sum_upd_eq {A} (f : A -> nat) x l t y : nth_error l t = Some y -> f x
   list_sum (map f (upd t x l)) = list_sum (map f l).
 Proof. intros N E. pose proof (list_sum_upd f x l t y N). lia. Qed.
 
-Lemma sm_start_mB t a m m' r : sm_start t a m = (m', r) -> mC m' = mC m.
-Proof.
-  unfold mC. intros H. destruct a; simpl in H.
-  - unfold rlock_try in H. destruct (wa m); inversion H; subst; reflexivity.
-  - destruct (ra m =? 0); [inversion H; subst; reflexivity|]. destruct (wa m); [inversion H; subst; reflexivity|].
-    destruct (_ && _); inversion H; subst; reflexivity.
-  - unfold lock_try, inc_pw in H. destruct (can_write _); inversion H; subst; reflexivity.
-  - destruct (0 <? ra m); [inversion H; subst; reflexivity|]. destruct (pw m =? 0); inversion H; subst; reflexivity.
-Qed.
-
 Lemma register_sums id hp es hp' es' r : register id hp es = (hp', es', r) ->
   list_sum (map mB hp') = list_sum (map mB hp) /\ list_sum (map mC hp') = list_sum (map mC hp).
 Proof.
@@ -183,20 +173,20 @@ Proof.
     + destruct (dscr th) as [|o rest] eqn:DS; [discriminate|].
       destruct (dag_begin o (heap s) (ents s)) as [[hp1 es1] ms] eqn:E. simpl in H. inversion H; subst; clear H. cbn [thr heap].
       left. pose proof (list_sum_upd (fun th => length (dscr th)) (mkDT None ms rest) _ _ _ NT) as X.
-      rewrite DS in X. simpl in X. lia.
+      cbv beta in X. rewrite DS in X. simpl in X. lia.
     + destruct (nth_error (heap s) r) as [m|] eqn:NH; [|discriminate].
       destruct (sm_start t a m) as [m' rs] eqn:E.
       assert (Y : forall cu td, list_sum (map (fun th => length (todo th)) (upd t (mkDT cu td (dscr th)) (thr s))) + S (length rest)
                                 = list_sum (map (fun th => length (todo th)) (thr s)) + length td).
       { intros cu td. pose proof (list_sum_upd (fun th => length (todo th)) (mkDT cu td (dscr th)) _ _ _ NT) as X.
-        rewrite TD in X. simpl in X. simpl. lia. }
+        cbv beta in X. rewrite TD in X. simpl in X. simpl. lia. }
       destruct rs; simpl in H; inversion H; subst; clear H; cbn [thr heap];
         (right; split; [apply (list_sum_upd_eq _ _ _ _ _ NT); reflexivity|]); left;
         match goal with |- context [mkDT ?cu ?td _] => specialize (Y cu td) end; simpl in Y; lia.
     + simpl in H. inversion H; subst; clear H. cbn [thr heap].
       right; split; [apply (list_sum_upd_eq _ _ _ _ _ NT); reflexivity|]. left.
       pose proof (list_sum_upd (fun th => length (todo th)) (mkDT None [] (dscr th)) _ _ _ NT) as X.
-      rewrite TD in X. simpl in X. lia.
+      cbv beta in X. rewrite TD in X. simpl in X. lia.
 Qed.
 
 Theorem dag_terminates : well_founded (fun s' s : dag => exists t c, dstep s t c = Some s').
